@@ -16,28 +16,6 @@ theorem allLeaf_of_shares {H : HashFn} {l : List Share} (h : ∀ sh ∈ l, NS_SI
   obtain ⟨y, hy, rfl⟩ := List.mem_map.mp hx
   exact ⟨y.ns, y.data, share_ns_length (h y hy), rfl⟩
 
-/-- equal leaf-hash lists have equal data (and namespaces) -/
-theorem leafHash_map_inj {H : HashFn} (hk : HashOK H) : ∀ {l l' : List Share},
-    (∀ sh ∈ l, NS_SIZE ≤ sh.data.length) → (∀ sh ∈ l', NS_SIZE ≤ sh.data.length) →
-    l.map (Share.leafHash H) = l'.map (Share.leafHash H) → l.map Share.data = l'.map Share.data := by
-  intro l
-  induction l with
-  | nil => intro l' _ _ h; cases l' with
-    | nil => rfl
-    | cons a t => simp at h
-  | cons a t ih =>
-    intro l' hl hl' h
-    cases l' with
-    | nil => simp at h
-    | cons a' t' =>
-      simp only [List.map_cons, List.cons.injEq] at h ⊢
-      refine ⟨?_, ih (fun s hs => hl s (by simp [hs])) (fun s hs => hl' s (by simp [hs])) h.2⟩
-      have h1 := h.1
-      unfold Share.leafHash at h1
-      have hn : a.ns.length = a'.ns.length := by
-        rw [share_ns_length (hl a (by simp)), share_ns_length (hl' a' (by simp))]
-      exact (hashLeaf_inj hk hn (congrArg NsHash.hash h1)).2
-
 /-! ### Relative collision-freeness (audit repair): the inputs hashed for a row tree -/
 
 /-- inputs hashed when the verifier rebuilds the row tree from the received shares: the leaf preimages
